@@ -45,6 +45,30 @@ def _canonical_walk(ctx: Ctx, rs: RuleSet, w):
   rule = 'ORD.sharing-order-independent'
   rs.declare(rule, 'the path recorded for a shared node is independent of '
              'dict insertion order / keyword order', 3)
+  # the walk may delegate to a general walk in another module, passing the
+  # registry along: follow the delegation, remembering what each parameter of
+  # the delegate is bound to
+  bound = {}
+  for _ in range(3):
+    if w.nested:
+      break
+    rets_ = [r for r in walk_function(w.node) if isinstance(r, ast.Return)]
+    tgt = None
+    if len(rets_) == 1 and isinstance(rets_[0].value, ast.Call):
+      c_ = rets_[0].value
+      tgt = ctx.p.funcs.get(ctx.p.resolve(c_.func, w) or '')
+      if tgt is not None and not any(
+          isinstance(a_, ast.Starred) for a_ in c_.args):
+        nb = {}
+        for prm, a_ in zip(tgt.params, c_.args):
+          nb[prm] = bound.get(unparse(a_), unparse(a_))
+        for k_ in c_.keywords:
+          if k_.arg:
+            nb[k_.arg] = bound.get(unparse(k_.value), unparse(k_.value))
+        bound = nb
+    if tgt is None:
+      break
+    w = tgt
   visit = next(iter(w.nested.values()), None)
   if visit is None:
     raise AnalysisError(f'{w.qualname}: nested visit function not found')
@@ -81,8 +105,12 @@ def _canonical_walk(ctx: Ctx, rs: RuleSet, w):
            'constants may or may not be one object)', ctx.loc(visit, visit.node))
   regs = [c for c in ctx.calls(visit) if 'find_node_traverser' in unparse(
       c.func)]
-  rs.check(bool(regs) and all('_defaults_aware_traverser_registry' in unparse(
-      c.func) for c in regs), rule, f'{visit.qualname}:registry',
+  def receiver(c):
+    r_ = unparse(c.func.value) if isinstance(c.func, ast.Attribute) else ''
+    return bound.get(r_, r_)
+
+  rs.check(bool(regs) and all('_defaults_aware_traverser_registry' in receiver(
+      c) for c in regs), rule, f'{visit.qualname}:registry',
            'children are enumerated with the defaults-aware registry (unset '
            '== default)', ctx.loc(visit, visit.node), nontrivial=False)
 
@@ -211,9 +239,34 @@ def run(ctx: Ctx, rs: RuleSet, tier: str):
            'identity-bearing node, and == depends on whether equal constants '
            'happen to be the same object', ctx.loc(ii, ii.node))
   vp = ii.params[0]
-  exact = any(isinstance(c, ast.Compare) and len(c.ops) == 1 and isinstance(
-      c.ops[0], ast.Is) and unparse(c.left) == f'type({vp})' and unparse(
-          c.comparators[0]) == 'tuple' for c in walk_function(ii.node))
+  # a memoizable value whose exact type is not tuple is never internable:
+  # every value returned under (memoizable, type(value) is not tuple) is False
+  from fdlstatic import dispatch
+
+  def ii_atoms(memoizable, exact_tuple):
+    def ev(t):
+      if isinstance(t, ast.Constant) and isinstance(t.value, bool):
+        return t.value
+      if isinstance(t, ast.Call) and unparse(t.func).endswith(
+          'is_memoizable') and [unparse(a_) for a_ in t.args] == [vp]:
+        return memoizable
+      if isinstance(t, ast.Compare) and len(t.ops) == 1 and {
+          unparse(t.left), unparse(t.comparators[0])} == {
+              f'type({vp})', 'tuple'}:
+        if isinstance(t.ops[0], (ast.Is, ast.Eq)):
+          return exact_tuple
+        if isinstance(t.ops[0], (ast.IsNot, ast.NotEq)):
+          return None if exact_tuple is None else not exact_tuple
+      return None
+    return ev
+
+  gi = ctx.cfg(ii)
+  ev_ = ii_atoms(True, False)
+  vals_ = dispatch.returned_under(gi, ev_, ii)
+  exact = bool(vals_) and all(
+      dispatch.eval_atoms(v_, ev_) is False for v_ in vals_) and any(
+          dispatch.eval_atoms(v_, ii_atoms(True, True)) is not False
+          for v_ in dispatch.returned_under(gi, ii_atoms(True, True), ii))
   loose = [c for c in walk_function(ii.node) if isinstance(c, ast.Call) and
            unparse(c.func) in ('isinstance', 'issubclass') and len(
                c.args) == 2 and 'tuple' in unparse(c.args[1])]
@@ -310,19 +363,31 @@ def run(ctx: Ctx, rs: RuleSet, tier: str):
            ctx.loc(cb, cb.node))
   # same lookup on both sides
   ok = False
+  lookup_fn = None
   if loop is not None:
     k = unparse(loop.target)
     assigns = [s for s in loop.body if isinstance(s, ast.Assign) and
                isinstance(s.value, ast.Call)]
-    calls = [(unparse(s.value.func), [unparse(a) for a in s.value.args])
-             for s in assigns]
+    calls = [(unparse(s.value.func), [unparse(a) for a in s.value.args],
+              s.value) for s in assigns]
     fns = {c[0] for c in calls}
-    ok = (len(calls) >= 2 and len(fns) == 1 and
-          sorted(c[1] for c in calls) == sorted([[k, x], [k, y]]))
+    if len(calls) >= 2 and len(fns) == 1:
+      # the two argument lists are the same up to the operand, and name the key
+      def shape(args, operand):
+        return ['@' if a == operand else a for a in args]
+      sx = [c for c in calls if x in c[1] and y not in c[1]]
+      sy = [c for c in calls if y in c[1] and x not in c[1]]
+      ok = (len(sx) == 1 and len(sy) == 1 and len(calls) == 2 and
+            shape(sx[0][1], x) == shape(sy[0][1], y) and k in sx[0][1])
+      fe = calls[0][2].func
+      if isinstance(fe, ast.Name) and fe.id in cb.nested:
+        lookup_fn = cb.nested[fe.id]
+      else:
+        lookup_fn = p.funcs.get(p.resolve(fe, cb) or '')
   rs.check(ok, rule, f'{cb.qualname}:same-lookup',
            'the same value-or-default lookup is applied to both operands',
            ctx.loc(cb, cb.node))
-  gd = cb.nested.get('get_value_or_default')
+  gd = lookup_fn
   ok = False
   if gd is not None:
     srcg = unparse(gd.node)
@@ -341,7 +406,9 @@ def run(ctx: Ctx, rs: RuleSet, tier: str):
   # object on both sides is never reported as different
   looked_up = roles.assigned_from(cb, lambda e: isinstance(e, ast.Call) and
                                   isinstance(e.func, ast.Name) and
-                                  e.func.id in cb.nested)
+                                  (e.func.id in cb.nested or (
+                                      lookup_fn is not None and
+                                      e.func.id == lookup_fn.name)))
   ne_tests = [t for n in walk_function(cb.node) if isinstance(n, ast.If)
               for t in [n.test] if any(
                   isinstance(c, ast.Compare) and isinstance(
@@ -362,9 +429,25 @@ def run(ctx: Ctx, rs: RuleSet, tier: str):
   its = [c for c in ctx.calls(cb) if p.resolve(c.func, cb) == f'{DAG}.iterate']
   walker_q = f'{CFG}._first_paths_in_canonical_order'
   ws = [c for c in ctx.calls(cb) if p.resolve(c.func, cb) == walker_q]
+  # the sharing comparison may live in a private helper called with both
+  # operands: it is then judged there, with the helper's parameter names
+  dag_fn, dx, dy = cb, x, y
+  if not ws and not its:
+    for c in ctx.calls(cb):
+      h = p.funcs.get(p.resolve(c.func, cb) or '')
+      if h is None or h.is_lambda or h.cls is not None or (
+          h.module is not cb.module) or len(c.args) != 2 or c.keywords:
+        continue
+      if sorted(unparse(a_) for a_ in c.args) != sorted([x, y]):
+        continue
+      hw = [c2 for c2 in ctx.calls(h) if p.resolve(c2.func, h) == walker_q]
+      if hw:
+        dag_fn, ws = h, hw
+        dx = h.params[[unparse(a_) for a_ in c.args].index(x)]
+        dy = h.params[[unparse(a_) for a_ in c.args].index(y)]
   if ws:
     ok = len(ws) == 2 and sorted(unparse(c.args[0]) for c in ws) == sorted(
-        [x, y]) and all(len(c.args) == 1 and not c.keywords for c in ws)
+        [dx, dy]) and all(len(c.args) == 1 and not c.keywords for c in ws)
     rs.check(ok, rule, f'{cb.qualname}:traversals',
              'both operands go through the same canonical-order walk',
              ctx.loc(cb, cb.node))
@@ -399,9 +482,10 @@ def run(ctx: Ctx, rs: RuleSet, tier: str):
            '__eq__ compares values and sharing structure',
            ctx.loc(eq, eq.node))
   # path lists compared pairwise after sorting both the same way
-  sorts = [unparse(c) for c in ctx.calls(cb) if unparse(c.func) == 'sorted']
-  rs.check(len(sorts) == 2 and sorts[0].replace(x, '_').replace(
-      'x_', '_') == sorts[1].replace(y, '_').replace('y_', '_'), rule,
+  sorts = [unparse(c) for c in ctx.calls(dag_fn)
+           if unparse(c.func) == 'sorted']
+  rs.check(len(sorts) == 2 and sorts[0].replace(dx, '_').replace(
+      'x_', '_') == sorts[1].replace(dy, '_').replace('y_', '_'), rule,
            f'{cb.qualname}:path-sort',
            f'paths of both sides are sorted the same way: {sorts}',
            ctx.loc(cb, cb.node), nontrivial=False)
